@@ -1,9 +1,10 @@
 CONSTANTS
   MaxNodes = 0
   BitsChoices = {}
-  Kinds = {"bits", "loc", "skip"}
+  Kinds = {"bits", "loc", "skip", "tall"}
   HMax = 2100
+  TallExtra = {3000000, 4194400, 4500000}
 INIT TInit
 NEXT TNext
-INVARIANTS FlagsAreNumeric ZeroOnlyForZeroClass LocatorHeightsShape LocatorIsShort SkipIsLower EmitRow
+INVARIANTS FlagsAreNumeric ZeroOnlyForZeroClass LocatorHeightsShape LocatorIsShort LocatorLength SkipIsLower EmitRow
 CHECK_DEADLOCK FALSE
